@@ -334,6 +334,10 @@ func (g *Gen) Next() Op {
 // ---------------------------------------------------------------- executor + model
 
 type Exec struct {
+	// OnRestartClosed, if set, runs inside a "restart" op after the database was closed and
+	// before it is opened again (to look at the files exactly as the open will find them).
+	OnRestartClosed func()
+
 	Dir    string
 	Cfg    Config
 	DB     *tsdb.DB
@@ -647,6 +651,9 @@ func (e *Exec) Apply(op Op) error {
 		if err := e.DB.Close(); err != nil {
 			e.DB = nil
 			return fmt.Errorf("Close: %w", err)
+		}
+		if e.OnRestartClosed != nil {
+			e.OnRestartClosed()
 		}
 		if err := e.open(); err != nil {
 			e.DB = nil
